@@ -114,7 +114,7 @@ func init() {
 			map[string]int64{"txn_committed": 500, "dumps": 500}},
 		{"C02", cfgC02, 2400, 32000, "one case = one seeded history in which ~40% of the transactions end in an error (body error or failing row callback, after successful inserts/updates/deletes/key ops); after every rolled-back transaction the full dump (rows, values, indexes, keys, counts, sorted order) must equal the dump before it, nothing may reach the logger, and a twin collection that only ever ran the committed transactions must hand out the same insert offsets; inside transactions every write is followed by a read through the same transaction; every third transaction is observed from a second goroutine after each buffered operation (full dump, sometimes snapshot+restore); non-trivial = at least 3 committed transactions",
 			map[string]int64{"txn_rolled_back": 100, "inflight_observations": 100}},
-		{"C03", cfgC03, 2400, 32000, "one case = one seeded history with up to 6 bitmap indexes (numeric thresholds per accessor, string equality/prefix, bool, record byte tests) created before or after the data and dropped at random; after every step With(index) and Row.Bool(index) are compared with the predicate evaluated over the values read through the typed readers - on the primary, on a stream replica and on restored collections; non-trivial = at least 3 committed transactions",
+		{"C03", cfgC03, 1600, 32000, "one case = one seeded history with up to 6 bitmap indexes (numeric thresholds per accessor, string equality/prefix, bool, record byte tests) created before or after the data and dropped at random; after every step With(index) and Row.Bool(index) are compared with the predicate evaluated over the values read through the typed readers - on the primary, on a stream replica and on restored collections; non-trivial = at least 3 committed transactions",
 			map[string]int64{"index_comparisons": 500, "replica_comparisons": 100}},
 		{"C04", cfgC04, 3200, 48000, "one case = one seeded history interleaved with random filter chains (length 1-5 over With/Without/Union/WithUnion/WithValue/WithInt/WithUint/WithFloat/WithString on indexes, value columns, bool columns and missing names); Count, the Range sequence and Sum/Avg/Min/Max over a random numeric column are compared with set algebra over the dumped rows and values (float values are dyadic rationals so every summation order is exact); non-trivial = at least 3 committed transactions",
 			map[string]int64{"filter_chains": 500, "aggregates": 300}},
@@ -138,6 +138,10 @@ func init() {
 		}
 		if p.id == "C12" {
 			mp.add(e2PhaseFor("C12", e2Oracles{keys: true}))
+			mp.add(racePlan(4, 40), func(w *W, idx int) { keyMapRound(w, idx) })
+		}
+		if p.id == "C03" {
+			mp.add(racePlan(4, 40), func(w *W, idx int) { indexBuildRound(w, idx) })
 		}
 		if p.id == "C11" {
 			mp.add(racePlan(6, 60), func(w *W, idx int) { insertRound(w, idx) })
